@@ -85,14 +85,24 @@ impl Cleaner {
     /// be leaked and the cleaning action will never be executed.
     #[inline]
     pub fn register(&self, action: impl FnOnce() + 'static) -> Cleanable {
-        let cc = {
+        // Don't hold a reference to the Option while creating the map: Cc::new may start a collection, whose callbacks
+        // may call register on this same Cleaner. In that case the map they created is kept (it already contains
+        // their cleaning actions) and the one created here is simply dropped
+        // SAFETY: no reference to the Option already exists
+        if unsafe { (*self.cleaner_map.get()).is_none() } {
+            let new_map = Cc::new(CleanerMap {
+                map: RefCell::new(SlotMap::with_capacity_and_key(3)),
+            });
+
             // SAFETY: no reference to the Option already exists
             let map = unsafe { &mut *self.cleaner_map.get() };
+            if map.is_none() {
+                *map = Some(new_map);
+            }
+        }
 
-            map.get_or_insert_with(|| Cc::new(CleanerMap {
-                map: RefCell::new(SlotMap::with_capacity_and_key(3)),
-            }))
-        };
+        // SAFETY: no mutable reference to the Option exists and the Option is Some
+        let cc = unsafe { (*self.cleaner_map.get()).as_ref().unwrap_unchecked() };
 
         let map_key = cc.map.borrow_mut().insert(CleaningAction(Some(Box::new(action))));
 
